@@ -650,6 +650,8 @@ type loopCtx struct {
 	autoInv []func(st *State) (*Term, string)
 	preSt  *State // state before the loop
 	idxNow *Term // hidden index of a range loop at the point an invariant is evaluated (spec name: idx)
+	iterIdx *Term // range loops: the index of the iteration a step clause talks about (spec name: idx inside step clauses)
+	ranged  *Val  // range loops over slices/arrays: the value ranged over (spec name: ranged)
 }
 
 // havocForLoop havocs the modification set of the loop body in st (in place).
@@ -1041,6 +1043,12 @@ func (vc *VC) stepEnsures(lc *loopCtx, back *State, headSnap *State) {
 	for _, c := range lc.spec.StepEns {
 		env := vc.specEnvAt(back, lc.pos)
 		env.iter = headSnap
+		if lc.iterIdx != nil {
+			env.names["idx"] = intVal(lc.iterIdx)
+		}
+		if lc.ranged != nil {
+			env.names["ranged"] = *lc.ranged
+		}
 		t := vc.specBool(env, c.Expr)
 		tag := c.Tag
 		if tag == "" {
@@ -1225,6 +1233,11 @@ func (vc *VC) execRange(x *ast.RangeStmt, st *State, label string) Flow {
 		}
 		if idx != nil {
 			lc.idxNow = Add(idx, One)
+			lc.iterIdx = idx
+			if kind == KSlice || kind == KArray {
+				r := rv
+				lc.ranged = &r
+			}
 		}
 		vc.stepEnsures(lc, back, headSnap)
 		vc.inLoopInvariantCheck(lc, back, "inv.keep")
